@@ -105,6 +105,7 @@ structure Spec.WF (s : Spec) : Prop where
   known_in : ∀ ty, s.known ty = true → ty ∈ s.order ∧ ty < 256
   order_known : ∀ ty ∈ s.order, ty ≠ 256 → s.known ty = true
   finals_kept : ∀ ty ∈ s.finals, s.droppedOnceFinal.contains ty = false
+  v2only_refused : ∀ ty ∈ s.v2only, s.v2.contains ty = true
 
 variable (s : Spec)
 
@@ -134,10 +135,11 @@ theorem finalized_fromRecs (recs : List Rec) : (fromRecs s recs).finalized s = s
   cases s.whole.contains (tyOf r.1) <;> simp
 
 /-- one turn of the serialize loop, in terms of the records the map held -/
-theorem emit_fromRecs (wf : s.WF) (recs : List Rec) (hv : ValidRecs recs)
-    (hok : ∀ r ∈ recs, s.whole.contains (tyOf r.1) = true → keyData r.1 = []) (fin : Bool)
+theorem emit_fromRecs (wf : s.WF) (ver : Nat) (recs : List Rec) (hv : ValidRecs recs)
+    (hok : ∀ r ∈ recs, s.whole.contains (tyOf r.1) = true → keyData r.1 = [])
+    (hgate : ∀ r ∈ recs, s.gated ver (tyOf r.1) = false) (fin : Bool)
     (ty : Nat) (hty : ty ∈ s.order) :
-    emit s (fromRecs s recs) fin ty =
+    emit s ver (fromRecs s recs) fin ty =
       sortKeys ((recs.filter (fun r => !s.dropped fin r)).filter (fun r => s.cls r.1 == ty)) := by
   have hne : ∀ r ∈ recs, r.1 ≠ [] := fun r hr => (hv.1 r hr).1
   unfold emit
@@ -172,6 +174,17 @@ theorem emit_fromRecs (wf : s.WF) (recs : List Rec) (hv : ValidRecs recs)
           simp only [beq_eq_false_iff_ne]; intro e; rw [e, hk] at hkr; cases hkr
         rw [h1, h2]
       · simp
+    by_cases hg : s.gated ver ty = true
+    · -- passed over at this version: the parser admitted no record of this type
+      simp only [hg, if_true]
+      have : (recs.filter (fun r => !s.dropped fin r)).filter (fun r => s.cls r.1 == ty) = [] := by
+        simp only [List.filter_filter, List.filter_eq_nil_iff, Bool.and_eq_true, Bool.not_eq_true', hcls,
+          beq_iff_eq, not_and]
+        intro r hr he
+        have := hgate r hr
+        rw [he, hg] at this; cases this
+      rw [this]; simp [sortKeys]
+    simp only [hg, Bool.false_eq_true, if_false]
     by_cases hdrop : (fin && s.droppedOnceFinal.contains ty) = true
     · -- dropped once finalized: nothing of this type survives
       simp only [hdrop, if_true]
@@ -268,16 +281,17 @@ theorem emit_fromRecs (wf : s.WF) (recs : List Rec) (hv : ValidRecs recs)
 
 /-- MAIN: the serialize loop over the typed object the parse loop builds is
     "sort by (field rank, key) the records that survive the drop predicate" -/
-theorem toRecs_fromRecs (wf : s.WF) (recs : List Rec) (hv : ValidRecs recs)
-    (hok : ∀ r ∈ recs, s.whole.contains (tyOf r.1) = true → keyData r.1 = []) :
-    toRecs s (fromRecs s recs) = sortRecs s.rank (s.kept recs) := by
+theorem toRecs_fromRecs (wf : s.WF) (ver : Nat) (recs : List Rec) (hv : ValidRecs recs)
+    (hok : ∀ r ∈ recs, s.whole.contains (tyOf r.1) = true → keyData r.1 = [])
+    (hgate : ∀ r ∈ recs, s.gated ver (tyOf r.1) = false) :
+    toRecs s ver (fromRecs s recs) = sortRecs s.rank (s.kept recs) := by
   unfold toRecs
   rw [finalized_fromRecs]
-  have h1 : s.order.flatMap (emit s (fromRecs s recs) (s.finalized recs)) =
+  have h1 : s.order.flatMap (emit s ver (fromRecs s recs) (s.finalized recs)) =
       s.order.flatMap (fun ty => sortKeys ((s.kept recs).filter (fun r => s.cls r.1 == ty))) := by
     apply flatMap_congr'
     intro ty hty
-    rw [emit_fromRecs s wf recs hv hok _ ty hty]; rfl
+    rw [emit_fromRecs s wf ver recs hv hok hgate _ ty hty]; rfl
   rw [h1]
   have hvk : ValidRecs (s.kept recs) := validRecs_sublist List.filter_sublist hv
   exact flatMap_sorted_groups s.order (fun r => s.cls r.1) s.rank (s.kept recs) wf.idx
@@ -289,6 +303,28 @@ theorem recordOk_keyData (ver : Nat) (r : Rec) (h : s.recordOk ver r = true)
   simp only [hw, if_true] at h
   repeat' split at h
   all_goals first | cases h | (simp only [Bool.and_eq_true, List.isEmpty_iff] at h; exact h.1)
+
+/-- what the parser admits at a version is never a field the serializer passes over at that version -/
+theorem recordOk_not_gated (wf : s.WF) (ver : Nat) (r : Rec) (h : s.recordOk ver r = true) :
+    s.gated ver (tyOf r.1) = false := by
+  unfold Spec.gated
+  by_cases h0 : ver = 0
+  · subst h0
+    cases hv2 : s.v2.contains (tyOf r.1)
+    · cases hvo : s.v2only.contains (tyOf r.1)
+      · simp
+      · have := wf.v2only_refused _ (by simpa using hvo)
+        rw [hv2] at this; cases this
+    · have hv2' : tyOf r.1 ∈ s.v2 := by simpa using hv2
+      have : s.recordOk 0 r = false := by simp [Spec.recordOk, hv2']
+      rw [this] at h; cases h
+  · have hne : (ver != 0) = true := by simpa using h0
+    have heq : (ver == 0) = false := by simpa using h0
+    cases hvo : s.v0only.contains (tyOf r.1)
+    · simp [heq]
+    · have hvo' : tyOf r.1 ∈ s.v0only := by simpa using hvo
+      have : s.recordOk ver r = false := by simp [Spec.recordOk, h0, hvo']
+      rw [this] at h; cases h
 
 -- ------------------------------------------------------------------ consequences
 theorem mem_sorted_kept (recs : List Rec) (r : Rec) :
@@ -325,26 +361,34 @@ theorem kept_sorted_kept (wf : s.WF) (recs : List Rec) :
 /-- what `reser` answers with, spelled out -/
 theorem reser_ok (wf : s.WF) (ver : Nat) (b out : Bytes) (h : reser s ver b = .ok out) :
     ∃ recs, parseMap b = .ok (recs, []) ∧ recs.all (s.recordOk ver) = true ∧ ValidRecs recs ∧
-      toRecs s (fromRecs s recs) = sortRecs s.rank (s.kept recs) ∧
-      out = serMap (sortRecs s.rank (s.kept recs)) := by
+      toRecs s ver (fromRecs s recs) = sortRecs s.rank (s.kept recs) ∧
+      out = serMap (sortRecs s.rank (s.kept recs)) ∧ (ver = 0 ∨ ver = 2) := by
   unfold reser at h
   split at h
   · cases h
   · rename_i recs rest hp
     split at h
     · cases h
-    · rename_i hr
+    · rename_i hadm
       split at h
-      · rename_i hall
-        cases h
-        have : rest = [] := by simpa using hr
-        subst this
-        have ⟨hv, _⟩ := serMap_parseMap _ _ _ hp
-        have hok : ∀ r ∈ recs, s.whole.contains (tyOf r.1) = true → keyData r.1 = [] :=
-          fun r hr hw => recordOk_keyData s ver r (List.all_eq_true.1 hall r hr) hw
-        have e := toRecs_fromRecs s wf recs hv hok
-        exact ⟨recs, hp, hall, hv, e, by rw [e]⟩
       · cases h
+      · rename_i hr
+        split at h
+        · rename_i hall
+          cases h
+          have : rest = [] := by simpa using hr
+          subst this
+          have ⟨hv, _⟩ := serMap_parseMap _ _ _ hp
+          have hok : ∀ r ∈ recs, s.whole.contains (tyOf r.1) = true → keyData r.1 = [] :=
+            fun r hr hw => recordOk_keyData s ver r (List.all_eq_true.1 hall r hr) hw
+          have hgate : ∀ r ∈ recs, s.gated ver (tyOf r.1) = false :=
+            fun r hr => recordOk_not_gated s wf ver r (List.all_eq_true.1 hall r hr)
+          have e := toRecs_fromRecs s wf ver recs hv hok hgate
+          have hver : ver = 0 ∨ ver = 2 := by
+            simp only [admitsVersion, Bool.not_eq_true', Bool.not_eq_false, Bool.or_eq_true, beq_iff_eq] at hadm
+            exact hadm
+          exact ⟨recs, hp, hall, hv, e, by rw [e], hver⟩
+        · cases h
 
 theorem parseMap_sorted_kept (recs : List Rec) (hv : ValidRecs recs) :
     parseMap (serMap (sortRecs s.rank (s.kept recs))) = .ok (sortRecs s.rank (s.kept recs), []) := by
@@ -356,7 +400,7 @@ theorem parseMap_sorted_kept (recs : List Rec) (hv : ValidRecs recs) :
 /-- re-serialization is a fixed point after one round -/
 theorem reser_fixed (wf : s.WF) (ver : Nat) (b out : Bytes) (h : reser s ver b = .ok out) :
     reser s ver out = .ok out := by
-  obtain ⟨recs, hp, hall, hv, _, rfl⟩ := reser_ok s wf ver b out h
+  obtain ⟨recs, hp, hall, hv, _, rfl, hver⟩ := reser_ok s wf ver b out h
   have hv' : ValidRecs (sortRecs s.rank (s.kept recs)) :=
     validRecs_perm (sortRecs_perm s.rank _).symm (validRecs_sublist List.filter_sublist hv)
   have hall' : (sortRecs s.rank (s.kept recs)).all (s.recordOk ver) = true := by
@@ -365,10 +409,14 @@ theorem reser_fixed (wf : s.WF) (ver : Nat) (b out : Bytes) (h : reser s ver b =
     exact hall r ((mem_sorted_kept s recs r).1 hr).1
   have hok : ∀ r ∈ sortRecs s.rank (s.kept recs), s.whole.contains (tyOf r.1) = true → keyData r.1 = [] :=
     fun r hr hw => recordOk_keyData s ver r (List.all_eq_true.1 hall' r hr) hw
+  have hgate : ∀ r ∈ sortRecs s.rank (s.kept recs), s.gated ver (tyOf r.1) = false :=
+    fun r hr => recordOk_not_gated s wf ver r (List.all_eq_true.1 hall' r hr)
+  have hadm : admitsVersion ver = true := by
+    rcases hver with rfl | rfl <;> rfl
   unfold reser
   rw [parseMap_sorted_kept s recs hv]
-  simp only [List.isEmpty_nil, Bool.not_true, Bool.false_eq_true, if_false, hall', if_true,
-    toRecs_fromRecs s wf _ hv' hok, kept_sorted_kept s wf, sortRecs_idem]
+  simp only [hadm, List.isEmpty_nil, Bool.not_true, Bool.false_eq_true, if_false, hall', if_true,
+    toRecs_fromRecs s wf ver _ hv' hok hgate, kept_sorted_kept s wf, sortRecs_idem]
 
 -- ------------------------------------------------------------------ the three map kinds
 instance (s : Spec) : Decidable (Spec.WF s) :=
@@ -376,13 +424,14 @@ instance (s : Spec) : Decidable (Spec.WF s) :=
     (s.order.Pairwise (fun a b => s.order.idxOf a < s.order.idxOf b) ∧ 256 ∈ s.order ∧
       (∀ ty ∈ s.whole ++ s.keyed, ty ∈ s.order ∧ ty < 256) ∧
       (∀ ty ∈ s.order, ty ≠ 256 → s.known ty = true) ∧
-      (∀ ty ∈ s.finals, s.droppedOnceFinal.contains ty = false))
-    ⟨fun ⟨a, b, c, d, e⟩ => ⟨a, b, fun ty h => c ty (by
+      (∀ ty ∈ s.finals, s.droppedOnceFinal.contains ty = false) ∧
+      (∀ ty ∈ s.v2only, s.v2.contains ty = true))
+    ⟨fun ⟨a, b, c, d, e, f⟩ => ⟨a, b, fun ty h => c ty (by
         simp only [Spec.known, Bool.or_eq_true, List.contains_iff_mem] at h
-        simpa using h), d, e⟩,
+        simpa using h), d, e, f⟩,
      fun w => ⟨w.idx, w.unk, fun ty h => w.known_in ty (by
         simp only [Spec.known, Bool.or_eq_true, List.contains_iff_mem]
-        simpa using h), w.order_known, w.finals_kept⟩⟩
+        simpa using h), w.order_known, w.finals_kept, w.v2only_refused⟩⟩
 
 theorem wf_specIn : specIn.WF := by decide
 theorem wf_specOut : specOut.WF := by decide
